@@ -247,7 +247,7 @@ pub fn tpl_strategy(i: usize, dim: usize) -> BoxedStrategy<Tpl> {
         13 => dev().prop_map(|dev| Tpl::RealRw { dev }).boxed(),
         14 => swap.prop_map(|swap| Tpl::PermRw { swap }).boxed(),
         15 => (1u32..8, 0u32..8, 0u32..4, 0u32..4, 0.001f64..0.5, 0.0f64..2.0, 1u32..4).prop_map(|(init, extra, a, b, d0, dd, m)| Tpl::Iwo { init, max: init + extra, smin: a.min(b), smax: a.max(b), dev0: d0, dev1: d0 + 0.01 + dd, modulation: m }).boxed(),
-        16 => (1u32..9, 0.0f64..1.0, 0.0f64..2.0, 0.0f64..2.0, prop_oneof![Just(0.0), Just(0.97), 0.0f64..0.999]).prop_map(|(pop, alpha, beta, gamma, delta)| Tpl::Fa { pop, alpha, beta, gamma, delta }).boxed(),
+        16 => (1u32..9, prop_oneof![1 => Just(0.0), 4 => 0.0f64..1.0], prop_oneof![1 => Just(0.0), 5 => 0.0f64..2.0], prop_oneof![1 => Just(0.0), 1 => Just(1e6), 5 => 0.0f64..2.0], prop_oneof![Just(0.0), Just(0.97), 0.0f64..0.999]).prop_map(|(pop, alpha, beta, gamma, delta)| Tpl::Fa { pop, alpha, beta, gamma, delta }).boxed(),
         17 => (1u32..12).prop_map(|n| Tpl::Bh { n }).boxed(),
         18 => (1u32..8, prob(), 0.0f64..0.99, 0u32..6, 0.0f64..20.0, 0.0f64..50.0, 0.0f64..50.0, dev(), dev())
             .prop_map(|(init, mole_coll, ke_lr, alpha, beta, ke0, buffer, dev_wall, dev_dec)| Tpl::Cro { init, mole_coll, ke_lr, alpha, beta, ke0, buffer, dev_wall, dev_dec })
